@@ -293,6 +293,18 @@ pub fn gen_world(rng: &mut Rng, o: &GenOpts) -> CliWorld {
       }
     }
   }
+  // randomly generated global utilities (with local utils of their own) and rules using them
+  for (li, l) in langs.iter().enumerate() {
+    if matches!(*l, "TypeScript" | "JavaScript") && rng.chance(0.4) {
+      let (gs, rs) = rules::gen_random_globals(rng, l, li);
+      for g in gs {
+        if !utils.iter().any(|x| x.id == g.id) {
+          utils.push(g);
+        }
+      }
+      specs.extend(rs);
+    }
+  }
   // distribute over rule dirs / files
   let ndirs = rng.range(1, 3);
   let mut rule_dirs: Vec<RuleDir> = (0..ndirs).map(|i| RuleDir { name: format!("rules{i}"), files: vec![] }).collect();
